@@ -9,6 +9,7 @@ import (
 	"go.flow.arcalot.io/engine/internal/tablefmt"
 	"go.flow.arcalot.io/engine/internal/tableprinter"
 	"io"
+	"math"
 	"reflect"
 	"strings"
 	"sync"
@@ -450,7 +451,7 @@ func (l *loopState) onStageComplete(
 // deploy_failed outputs); the data model holds primitives, maps and lists only.
 func serializedStageOutput(output any) any {
 	if reflect.ValueOf(output).Kind() != reflect.Struct {
-		return output
+		return normalizeIntegers(output)
 	}
 	encoded, err := json.Marshal(output)
 	if err != nil {
@@ -461,6 +462,38 @@ func serializedStageOutput(output any) any {
 		return output
 	}
 	return decoded
+}
+
+// normalizeIntegers returns a copy of the data in which unsigned integers (plugins deliver
+// non-negative integers as uint64) are int64, the integer type of expressions and functions.
+func normalizeIntegers(data any) any {
+	switch typed := data.(type) {
+	case uint64:
+		if typed <= math.MaxInt64 {
+			return int64(typed)
+		}
+		return typed
+	case map[any]any:
+		result := make(map[any]any, len(typed))
+		for k, v := range typed {
+			result[normalizeIntegers(k)] = normalizeIntegers(v)
+		}
+		return result
+	case map[string]any:
+		result := make(map[string]any, len(typed))
+		for k, v := range typed {
+			result[k] = normalizeIntegers(v)
+		}
+		return result
+	case []any:
+		result := make([]any, len(typed))
+		for i, v := range typed {
+			result[i] = normalizeIntegers(v)
+		}
+		return result
+	default:
+		return data
+	}
 }
 
 // Marks the outputs of that stage unresolvable.
